@@ -5,11 +5,106 @@ open Layout
 open List
 open Nat
 
+type value =
+| VS of coq_Z
+| VArr of value list
+| VStruct of value list
+
 type step =
 | SElem of coq_Z
 | SMember of nat
 
 type path = step list
+
+type cell =
+| CPad
+| CFrag of coq_Z * coq_Z * coq_Z
+
+type mem = coq_Z -> cell
+
+(** val scalar_size : ty -> coq_Z **)
+
+let scalar_size = function
+| TInt b -> b
+| TBool -> Zpos Coq_xH
+| TPtr -> Zpos (Coq_xO (Coq_xO (Coq_xO Coq_xH)))
+| _ -> Z0
+
+(** val enc : ty -> value -> coq_Z -> cell **)
+
+let rec enc t v o =
+  match v with
+  | VS z ->
+    (match t with
+     | TInt b ->
+       if (&&) (Z.leb Z0 o) (Z.ltb o b) then CFrag (z, b, o) else CPad
+     | TBool ->
+       if (&&) (Z.leb Z0 o) (Z.ltb o (Zpos Coq_xH))
+       then CFrag (z, (Zpos Coq_xH), o)
+       else CPad
+     | TPtr ->
+       if (&&) (Z.leb Z0 o) (Z.ltb o (Zpos (Coq_xO (Coq_xO (Coq_xO Coq_xH)))))
+       then CFrag (z, (Zpos (Coq_xO (Coq_xO (Coq_xO Coq_xH)))), o)
+       else CPad
+     | _ -> CPad)
+  | VArr vs ->
+    (match t with
+     | TArr (_, e) ->
+       let rec go l o0 =
+         match l with
+         | [] -> CPad
+         | x :: r ->
+           if (&&) (Z.leb Z0 o0) (Z.ltb o0 (llvm_alloc_size e))
+           then enc e x o0
+           else go r (Z.sub o0 (llvm_alloc_size e))
+       in go vs o
+     | _ -> CPad)
+  | VStruct vs ->
+    (match t with
+     | TStruct ms ->
+       let rec go l ms0 offs =
+         match l with
+         | [] -> CPad
+         | x :: r ->
+           (match ms0 with
+            | [] -> CPad
+            | m :: ms' ->
+              (match offs with
+               | [] -> CPad
+               | off :: offs' ->
+                 if (&&) (Z.leb off o)
+                      (Z.ltb o (Z.add off (llvm_alloc_size m)))
+                 then enc m x (Z.sub o off)
+                 else go r ms' offs'))
+       in go vs ms (struct_offsets ms)
+     | _ -> CPad)
+
+(** val store : mem -> coq_Z -> ty -> value -> mem **)
+
+let store m a t v x =
+  if (&&) (Z.leb a x) (Z.ltb x (Z.add a (llvm_alloc_size t)))
+  then enc t v (Z.sub x a)
+  else m x
+
+(** val check_frag :
+    mem -> coq_Z -> coq_Z -> coq_Z -> coq_Z -> nat -> bool **)
+
+let rec check_frag m a z n i = function
+| O -> true
+| S k' ->
+  (match m (Z.add a i) with
+   | CPad -> false
+   | CFrag (z', n', i') ->
+     (&&) ((&&) ((&&) (Z.eqb z' z) (Z.eqb n' n)) (Z.eqb i' i))
+       (check_frag m a z n (Z.add i (Zpos Coq_xH)) k'))
+
+(** val load_scalar : mem -> coq_Z -> coq_Z -> coq_Z option **)
+
+let load_scalar m a n =
+  match m a with
+  | CPad -> None
+  | CFrag (z, _, _) ->
+    if check_frag m a z n Z0 (Z.to_nat n) then Some z else None
 
 (** val gep_offset : ty -> path -> (coq_Z * ty) option **)
 
@@ -60,6 +155,17 @@ let rec erase = function
      | [] -> []
      | x :: r -> (erase x) :: (go r)
      in go ms)
+
+(** val erase_list : lt list -> ty list **)
+
+let rec erase_list = function
+| [] -> []
+| x :: r -> (erase x) :: (erase_list r)
+
+(** val lsize : lt -> coq_Z **)
+
+let lsize t =
+  llvm_alloc_size (erase t)
 
 (** val slice_lt : lt -> lt **)
 
@@ -455,6 +561,55 @@ let lower_ref_pinned b steps =
     if is_nil steps
     then []
     else lower_steps_pinned steps ((GConst Z0) :: []) false
+
+type loc =
+| LocMem of coq_Z * lt
+| LocPtr of coq_Z * lt
+| LocSlice of coq_Z * coq_Z * lt
+
+(** val sem_step : mem -> loc -> rstep -> loc option **)
+
+let sem_step m l = function
+| RElem (i, endless) ->
+  if endless
+  then (match l with
+        | LocMem (a, t) -> Some (LocMem ((Z.add a (Z.mul i (lsize t))), t))
+        | _ -> None)
+  else (match l with
+        | LocMem (a, t) ->
+          (match t with
+           | LArr (_, e) -> Some (LocMem ((Z.add a (Z.mul i (lsize e))), e))
+           | _ -> None)
+        | _ -> None)
+| RMember k ->
+  (match l with
+   | LocMem (a, t) ->
+     (match t with
+      | LStruct ms ->
+        (match nth_error ms k with
+         | Some mk ->
+           (match nth_error (struct_offsets (erase_list ms)) k with
+            | Some off -> Some (LocMem ((Z.add a off), mk))
+            | None -> None)
+         | None -> None)
+      | _ -> None)
+   | _ -> None)
+| RDeslice0 ->
+  (match l with
+   | LocSlice (p, _, e) -> Some (LocMem (p, (LArr (Z0, e))))
+   | _ -> None)
+| RDeslice1 -> None
+| _ ->
+  (match l with
+   | LocMem (a, t) ->
+     (match t with
+      | LPtr u ->
+        (match load_scalar m a (Zpos (Coq_xO (Coq_xO (Coq_xO Coq_xH)))) with
+         | Some z -> Some (LocMem (z, u))
+         | None -> None)
+      | _ -> None)
+   | LocPtr (z, u) -> Some (LocMem (z, u))
+   | LocSlice (_, _, _) -> None)
 
 (** val ref_instrs : base_kind -> pty -> path -> instr list option **)
 
